@@ -49,6 +49,9 @@ def rep(*args):
 rep0 = rep1 = rep2 = rep3 = rep4 = rep5 = rep6 = repv = dup = rept = helper_rep = rep
 
 
+globals().update({"sig%d" % _i: rep for _i in range(256)})      # one alias per two-signature case (gen.sig_cases)
+
+
 def same(modname, attr, obj):
     """is obj the very object CPython resolves modname.attr to?"""
     m = sys.modules.get(modname)
